@@ -3,7 +3,7 @@
    Model.v: gix-config (parser, section lookup, Body::{values,value_implicit}, File::{strings,string,
    boolean,integer,path}, value::normalize, Boolean/Integer/Path).  Spec.v: git 2.39.5 config.c. *)
 From GixV.Base Require Import Bytes BytesFacts Outcome.
-From GixV.C27 Require Import Model Spec Proofs.
+From GixV.C27 Require Import Model Spec Proofs ProofsNorm ProofsValue.
 
 (* Case rules, lookup side: two keys whose section names and value names differ only in ASCII case
    (and whose subsections are identical) get the same answer for every query type. *)
@@ -29,6 +29,43 @@ Proof. exact L_subsection_exact. Qed.
 Theorem bool_keywords_are_git : forall v,
   parse_true v || parse_false v = true -> git_bool (Some v) = boolean_try_from v.
 Proof. exact L_bool_keywords. Qed.
+
+(* normalize: for EVERY byte string the result is that of the plain unescape loop (drop quotes,
+   backslash-n/t to LF/TAB, backslash-b pops, backslash-x to x, a final lone backslash is dropped):
+   the quote-stripping fast path, the borrowed/owned distinction and the early returns never
+   change the value. *)
+Theorem normalize_is_unescape : forall x, normalize x = unescape x [].
+Proof. exact L_normalize_is_unescape. Qed.
+
+(* normalize is git's parse_value (git >= 2.45 whitespace rule, Spec.v [verbatim := true]) on every
+   one-line raw value that is [clean_value]: quotes balanced, escapes among backslash-n, -t, -backslash, -quote, no comment
+   character outside quotes, no unquoted whitespace before the first value byte or at the end.
+   git consumes the line feed and leaves [rest]. *)
+Theorem normalize_is_git_parse_value_partial : forall r rest,
+  clean_value r = true ->
+  git_parse_value true (r ++ x0a :: rest) = Some (normalize r, rest).
+Proof. exact L_unescape_is_git_value. Qed.
+
+(* ... and likewise when the value is the last thing in the file (no final newline). *)
+Theorem normalize_is_git_parse_value_eof_partial : forall r,
+  clean_value r = true -> git_parse_value true r = Some (normalize r, []).
+Proof. exact L_unescape_is_git_value_eof. Qed.
+
+(* the full statement the partial theorems are a part of: for every input [i] of value_impl (the text
+   after `=`), whenever git accepts the value, gix parses it and normalize of the concatenated
+   Value/ValueNotDone/ValueDone payloads ([concat_values]) is git's value.  It is FALSE of the code as it is (classes
+   leading-whitespace-kept, backslash-at-eof, value-trailing-formfeed, lone-cr, doc-backspace): *)
+Definition normalize_is_git_full_statement : Prop :=
+  forall i v rest, git_parse_value true (crlf i) = Some (v, rest) ->
+    exists evs rest', value_impl i = Ok (evs, rest') /\ normalize (concat_values evs) = v.
+
+Theorem normalize_is_git_refuted : ~ normalize_is_git_full_statement.
+Proof. exact L_full_statement_refuted. Qed.
+
+Example clean_value_example :
+  let r := bs "a ""b ;# c"" \n\""d" in
+  clean_value r = true /\ normalize r = bs "a b ;# c " ++ [x0a; x22] ++ bs "d".
+Proof. split; reflexivity. Qed.
 
 Example case_rules_example :
   eq_ci (bs "Core") (bs "cORE") = true /\ eq_ci (bs "bare") (bs "BARE") = true /\
